@@ -171,6 +171,7 @@ class UpnpEventableStateVariable(UpnpStateVariable):
         super().__init__(state_variable_info, schema)
         self._last_sent = datetime.fromtimestamp(0, timezone.utc)
         self._defered_event: Optional[asyncio.TimerHandle] = None
+        self._trigger_pending = False
         self._sent_event = asyncio.Event()
 
     @property
@@ -197,11 +198,12 @@ class UpnpEventableStateVariable(UpnpStateVariable):
         if self._value == value:
             return
         super(UpnpEventableStateVariable, self.__class__).value.__set__(self, value)  # type: ignore
-        if not self.service or self._defered_event:
+        if not self.service or self._defered_event or self._trigger_pending:
             return
         assert self._updated_at
         next_update = self._last_sent + timedelta(seconds=self.max_rate)
         if self._updated_at >= next_update:
+            self._trigger_pending = True
             asyncio.create_task(self.trigger_event())
         else:
             loop = asyncio.get_running_loop()
@@ -211,10 +213,12 @@ class UpnpEventableStateVariable(UpnpStateVariable):
     def _trigger_defered_event(self) -> None:
         """Send the event that was held back by the moderation interval."""
         self._defered_event = None
+        self._trigger_pending = True
         asyncio.create_task(self.trigger_event())
 
     async def trigger_event(self) -> None:
         """Update any waiting subscribers."""
+        self._trigger_pending = False
         self._last_sent = datetime.now(timezone.utc)
         service = self.service
         assert isinstance(service, UpnpServerService)
